@@ -65,6 +65,8 @@ type hostWorld struct {
 	// then asks to be restarted so that the delayed crash is not attributed to
 	// an innocent later case.
 	poisoned bool
+	// pre reports facts about the running case before the host is attacked (kept even if the host dies)
+	pre func(string)
 }
 
 func seedKey(n uint64) types.PrivateKey {
@@ -619,6 +621,7 @@ func waitHandlerDone(s *crhp3.Stream) error {
 //   c_samerev      revision number not increased
 //   c_more         renter output increased
 //   c_unknown      a contract id the host does not know
+//   c_overdraw     more than the renter has left
 // A contract payment larger than the renter's funds zeroes the renter outputs and still adds
 // `amount` to the host outputs (the sums no longer match).
 func (w *hostWorld) writePayment(s *crhp3.Stream, mode string, amount types.Currency) error {
@@ -654,7 +657,7 @@ func (w *hostWorld) writePayment(s *crhp3.Stream, mode string, amount types.Curr
 		missed[i] = o.Value
 	}
 	revnum := cur.RevisionNumber + 1
-	if valid[0].Cmp(amount) < 0 || missed[0].Cmp(amount) < 0 {
+	if mode == "c_overdraw" || valid[0].Cmp(amount) < 0 || missed[0].Cmp(amount) < 0 {
 		addSat := func(a, b types.Currency) types.Currency {
 			if c, ovf := a.AddWithOverflow(b); !ovf {
 				return c
@@ -680,7 +683,7 @@ func (w *hostWorld) writePayment(s *crhp3.Stream, mode string, amount types.Curr
 	case "c_samerev":
 		revnum = cur.RevisionNumber
 	case "c_more":
-		valid[0] = valid[0].Add(amount).Add(amount)
+		valid[0] = valid[0].Add(amount).Add(amount).Add(types.NewCurrency64(1)) // strictly more than before, also for amount 0
 	}
 	req := crhp3.PayByContractRequest{ContractID: w.fcid, RevisionNumber: revnum, ValidProofValues: valid, MissedProofValues: missed, RefundAccount: w.account}
 	if mode == "c_unknown" {
@@ -1053,6 +1056,9 @@ func (w *hostWorld) doR3(p vhlib.ParsedLine) string {
 		return "res=badcase why=rpc"
 	}
 	before := w.snapshot()
+	if w.pre != nil {
+		w.pre("cost=" + cost.ExactString() + " bal0=" + before.bal.ExactString())
+	}
 	s := w.t3.DialStream()
 	defer s.Close()
 	s.SetDeadline(time.Now().Add(caseIOWait))
@@ -1089,12 +1095,16 @@ func (w *hostWorld) doR3(p vhlib.ParsedLine) string {
 		var resp crhp3.RPCLatestRevisionResponse
 		if step(s.WriteRequest(crhp3.RPCLatestRevisionID, &crhp3.RPCLatestRevisionRequest{ContractID: id})) && step(s.ReadResponse(&resp, 1<<16)) {
 			res = "accept"
-			if pay != "none" {
-				// the payment is optional; whatever happens to it, the renter has its answer
-				if err := s.WriteResponse(&uid); err == nil {
-					if perr := w.writePayment(s, pay, amount); perr != nil {
-						settleAfterDrop(perr)
-					}
+			if pay == "none" {
+				// the payment is optional: a renter that does not pay closes the stream
+				s.Close()
+				time.Sleep(20 * time.Millisecond)
+				return fmt.Sprintf("res=%s cost=%s %s", res, cost.ExactString(), snapObs(before, w.snapshot()))
+			}
+			// whatever happens to the payment, the renter has its answer
+			if err := s.WriteResponse(&uid); err == nil {
+				if perr := w.writePayment(s, pay, amount); perr != nil {
+					settleAfterDrop(perr)
 				}
 			}
 		}
